@@ -933,16 +933,16 @@ _BORDER = {"LittleEndian": "BLittle", "BigEndian": "BBig", "Null": "BNull"}
 class LayoutTranslator:
     """IR stopped before normalize_and_verify -> EmbossV.Layout.Model.module term."""
 
-    def __init__(self, ir):
+    def __init__(self, ir, module_index=0):
         self.ir = ir
-        self.mod = ir.module[0]
+        self.mod = ir.module[module_index]
         self.enum_idx, self.struct_idx = {}, {}
         self.enums, self.structs = [], []   # (typedef, defaults path)
 
     def collect(self, td, path):
         own = self.default_border(td.attribute)
         p = path + [own]
-        key = tuple(td.name.canonical_name.object_path)
+        key = (td.name.canonical_name.module_file,) + tuple(td.name.canonical_name.object_path)
         if td.has_field("enumeration"):
             self.enum_idx[key] = len(self.enums)
             self.enums.append(td)
@@ -990,13 +990,12 @@ class LayoutTranslator:
             if len(key) == 1 and key[0] in PRELUDE:
                 return "(RPre %s)" % PRELUDE[key[0]]
             raise OutOfModel("prelude-type-" + ".".join(key))
-        if cn.module_file != self.mod.source_file_name:
-            raise OutOfModel("imported-type")
+        key = (cn.module_file,) + key
         if key in self.enum_idx:
             return "(REnum %d)" % self.enum_idx[key]
         if key in self.struct_idx:
             return "(RStruct %d)" % self.struct_idx[key]
-        raise OutOfModel("type-reference-" + ".".join(key))
+        raise OutOfModel("type-reference-" + ".".join(key[1:]))
 
     def ftype(self, t):
         dims = []
@@ -1044,9 +1043,13 @@ class LayoutTranslator:
         return "(mk_field %s false %s %s %s %s %s %s %s)" % (name, o(st), o(sz), _z(it.minimum_value), _z(it.maximum_value), ft, bot, at)
 
     def collect_all(self):
-        mod_default = self.default_border(self.mod.attribute)
-        for td in self.mod.type:
-            self.collect(td, [mod_default])
+        """Type tables over ALL modules of the IR (the passes traverse every module): the main module first."""
+        for m in self.ir.module:
+            if m.source_file_name == "":
+                continue
+            mod_default = self.default_border(m.attribute)
+            for td in m.type:
+                self.collect(td, [mod_default])
         return self
 
     def field_borders(self):
@@ -1171,11 +1174,294 @@ class LayoutTranslator:
             "; ".join(coq_str(x) for x in declared), "; ".join(coq_str(x) for x in used))
 
 
+# ----------------------------------------------------------------------------
+# C14 extension: (cpp) back-end attribute tables and string validators, further front-end rules
+# ----------------------------------------------------------------------------
+def coq_bytes(s):
+    """Any str whose characters are < 128 as a Coq string term (control characters spelled by code)."""
+    if all(32 <= ord(ch) < 127 for ch in s):
+        return coq_str(s)
+    for ch in s:
+        if ord(ch) >= 128:
+            raise OutOfModel("non-ascii-character-in-string")
+    return "(string_of_list_ascii (map (fun n => ascii_of_N n) [%s]%%N))" % "; ".join(str(ord(ch)) for ch in s)
+
+
+# the regular expressions the Coq scanner [parse_ns] was written against (fail closed when they change)
+_NS_EXPECTED = {
+    "_NS_COMPONENT_RE": r"(?:^\s*|::)\s*([a-zA-Z_][a-zA-Z0-9_]*)\s*(?=\s*$|::)",
+    "_NS_RE": r"^\s*(?:(?:^\s*|::)\s*([a-zA-Z_][a-zA-Z0-9_]*)\s*(?=\s*$|::))+\s*$",
+    "_NS_EMPTY_RE": r"^\s*$",
+    "_NS_GLOBAL_RE": r"^\s*::\s*$",
+}
+_CPP_SCOPE_ARGS = {
+    "module_attributes": ("MODULE", "ScModule"), "struct_attributes": ("STRUCT", "ScStruct"),
+    "bits_attributes": ("BITS", "ScBits"), "enum_attributes": ("ENUM", "ScEnum"),
+    "enum_value_attributes": ("ENUM_VALUE", "ScEnumValue"),
+}
+
+
+def cpp_tables():
+    """(mk_ctabs ...) regenerated from back_end/cpp/attributes.py and header_generator.py (fail closed)."""
+    import inspect
+    import re
+    from compiler.back_end.cpp import attributes as ca
+    from compiler.back_end.cpp import header_generator as hg
+    from compiler.util import attribute_util as au
+    for k, v in _NS_EXPECTED.items():
+        if getattr(hg, k, None) != v:
+            raise TranslatorError("header_generator.%s changed: %r" % (k, getattr(hg, k, None)))
+    types = []
+    for name, checker in sorted((str(k.value), v) for k, v in ca.TYPES.items()):
+        if checker is not au.STRING:
+            raise TranslatorError("(cpp) attribute %s: type checker not understood" % name)
+        types.append("(%s, QString)" % coq_str(name))
+    if sorted(str(k.value) for k in ca.TYPES) != ["enum_case", "namespace"]:
+        raise TranslatorError("(cpp) attributes changed: %s" % sorted(str(k.value) for k in ca.TYPES))
+    src = inspect.getsource(hg._propagate_defaults_and_verify_attributes)
+    call = re.search(r"check_attributes_in_ir\((.*?)\n    \):", src, re.S)
+    if not call or 'back_end="cpp"' not in call.group(1) or "types=attributes.TYPES" not in call.group(1):
+        raise TranslatorError("check_attributes_in_ir call of the C++ back end not understood")
+    wired = dict(re.findall(r"(\w+_attributes)=attributes\.Scope\.(\w+)", call.group(1)))
+    if wired != {k: v[0] for k, v in _CPP_SCOPE_ARGS.items()}:
+        raise TranslatorError("(cpp) scope wiring changed: %s" % wired)
+    if sorted(ca.Scope.__members__) != sorted(v[0] for v in _CPP_SCOPE_ARGS.values()):
+        raise TranslatorError("(cpp) scopes changed: %s" % sorted(ca.Scope.__members__))
+    scopes = []
+    for arg, (member, sc) in sorted(_CPP_SCOPE_ARGS.items()):
+        spec = set(getattr(ca.Scope, member))
+        items = []
+        for n, d in sorted((str(getattr(n, "value", n)), bool(d)) for n, d in spec):
+            items.append("(%s, %s)" % (coq_str(n), "true" if d else "false"))
+        scopes.append("(%s, [%s])" % (sc, "; ".join(items)))
+    if "_verify_attribute_values(ir)" not in src:
+        raise TranslatorError("_verify_attribute_values no longer called")
+    vsrc = inspect.getsource(hg._verify_attribute_values)
+    if "_verify_namespace_attribute" not in vsrc or "_verify_enum_case_attribute" not in vsrc:
+        raise TranslatorError("_verify_attribute_values changed")
+    words = sorted(hg._CPP_RESERVED_WORDS)
+    cases = list(hg._SUPPORTED_ENUM_CASES)
+    for w in words + cases:
+        if not isinstance(w, str):
+            raise TranslatorError("reserved word / case is not a string")
+    return ("(mk_ctabs (mk_tabs [%s] [%s]) [%s] [%s])" % (
+        "; ".join(types), "; ".join(scopes), "; ".join(coq_str(w) for w in words), "; ".join(coq_str(c) for c in cases)),
+        len(words), cases)
+
+
+def _fake_cpp_attr(name, text):
+    loc = parser_types.SourceLocation(parser_types.SourcePosition(1, 1), parser_types.SourcePosition(1, 2 + len(text)))
+    return ir_data.Attribute(
+        name=ir_data.Word(text=name, source_location=loc), back_end=ir_data.Word(text="cpp", source_location=loc),
+        value=ir_data.AttributeValue(string_constant=ir_data.String(text=text, source_location=loc), source_location=loc),
+        source_location=loc)
+
+
+def real_namespace_verdict(text):
+    """(class, components-or-None) from header_generator._verify_namespace_attribute / _get_namespace_components."""
+    from compiler.back_end.cpp import header_generator as hg
+    errs = []
+    hg._verify_namespace_attribute(_fake_cpp_attr("namespace", text), "m.emb", errs)
+    if not errs:
+        return "NsOk", list(hg._get_namespace_components(text))
+    m = errs[0][0].message
+    if m.startswith("Empty namespace"):
+        return "NsEmpty", None
+    if m.startswith("Global namespace"):
+        return "NsGlobal", None
+    if m.startswith("Invalid namespace"):
+        return "NsInvalid", None
+    if m.startswith("Reserved word"):
+        return "NsReserved", list(hg._get_namespace_components(text))
+    raise TranslatorError("namespace error message not understood: %r" % m)
+
+
+def real_enum_case_verdict(text):
+    """(accepted?, cases) from header_generator._verify_enum_case_attribute / _split_enum_case_values."""
+    from compiler.back_end.cpp import header_generator as hg
+    errs = []
+    hg._verify_enum_case_attribute(_fake_cpp_attr("enum_case", text), "m.emb", errs)
+    return (not errs), list(hg._split_enum_case_values(text))
+
+
+def _is_qual(a, q):
+    return a.back_end is not None and (a.back_end.text or "") == q
+
+
+def _gate_attr_action(a):
+    return {"in_attribute": a}
+
+
+def _gate_collect(expression, in_attribute, roots):
+    # as constraints._check_bounds_on_runtime_integer_expressions
+    if in_attribute is not None and in_attribute.name.text == "static_requirements":
+        return
+    roots.append(expression)
+
+
+class ExtTranslator:
+    """IR (after compute_constants, before normalize_and_verify) -> Layout.ModelExt.ext_info term."""
+
+    def __init__(self, ir, lt):
+        self.ir, self.lt = ir, lt
+
+    # ---- (cpp) attribute nodes of every module ----
+    def cpp_attr_list(self, attrs):
+        out = []
+        for a in attrs:
+            if not _is_qual(a, "cpp"):
+                continue
+            v = a.value
+            if v.has_field("string_constant"):
+                val = "(AVString %s)" % coq_bytes(v.string_constant.text)
+            elif v.has_field("expression"):
+                t = v.expression.type
+                w = t.which_type if t is not None else None
+                if w == "integer":
+                    val = "(AVInt %s)" % ("true" if ir_util.is_constant(v.expression) else "false")
+                elif w == "boolean":
+                    val = "(AVBool %s)" % ("true" if t.boolean.has_field("value") else "false")
+                else:
+                    val = "AVExpr"
+            else:
+                raise TranslatorError("attribute value kind")
+            out.append("(mk_attr %s %s %s)" % (coq_str(a.name.text), "true" if a.is_default else "false", val))
+        return out
+
+    def cpp_nodes(self):
+        nodes = []
+        count = [0]
+
+        def node(sc, attrs):
+            l = self.cpp_attr_list(attrs)
+            count[0] += len(l)
+            if l:
+                nodes.append("(%s, [%s])" % (sc, "; ".join(l)))
+
+        def walk(td):
+            if td.has_field("structure"):
+                unit = int(td.addressable_unit)
+                node("ScBits" if unit == 1 else "ScStruct", td.attribute)
+                for f in td.structure.field:
+                    node("ScVirtField" if ir_util.field_is_virtual(f) else "ScPhysField", f.attribute)
+            elif td.has_field("enumeration"):
+                node("ScEnum", td.attribute)
+                for v in td.enumeration.value:
+                    node("ScEnumValue", v.attribute)
+            elif td.has_field("external"):
+                node("ScExternal", td.attribute)
+            for sub in td.subtype:
+                walk(sub)
+        for m in self.ir.module:
+            node("ScModule", m.attribute)
+            for td in m.type:
+                walk(td)
+        return "[" + ";\n   ".join(nodes) + "]", count[0]
+
+    # ---- [requires] sites ----
+    def req_sites(self):
+        out = []
+
+        def walk(td):
+            if td.has_field("structure"):
+                for f in td.structure.field:
+                    if not any(a.name.text == "requires" and not a.is_default and not (a.back_end is not None and a.back_end.text)
+                               for a in f.attribute):
+                        continue
+                    if ir_util.field_is_virtual(f):
+                        arr, t = False, f.read_transform.type
+                    elif not f.type.has_field("atomic_type"):
+                        arr, t = True, None
+                    else:
+                        ft = ir_util.find_object(f.type.atomic_type.reference, self.ir)
+                        arr, t = False, type_check.unbounded_expression_type_for_physical_type(ft)
+                    k = {"integer": "VkInt", "boolean": "VkBool", "enumeration": "VkEnum"}.get(t.which_type if t is not None else None, "VkOpaque")
+                    out.append("(mk_req %s %s)" % ("true" if arr else "false", k))
+            for sub in td.subtype:
+                walk(sub)
+        for m in self.ir.module:
+            if m.source_file_name == "":
+                continue
+            for td in m.type:
+                walk(td)
+        return "[" + "; ".join(out) + "]", len(out)
+
+    # ---- 64-bit gate ----
+    def _ext(self, v):
+        if v in (None, ""):
+            raise OutOfModel("integer-expression-without-bounds")
+        if v == "infinity":
+            return "PosInf"
+        if v == "-infinity":
+            return "NegInf"
+        return "(Fin %s)" % _z(int(v))
+
+    def btree(self, e):
+        fn = e.which_expression == "function" and not ir_util.is_constant_type(e.type)
+        ib = "None"
+        if e.type.which_type == "integer":
+            ib = "(Some (%s, %s))" % (self._ext(e.type.integer.minimum_value), self._ext(e.type.integer.maximum_value))
+        args = [self.btree(a) for a in e.function.args] if fn else []
+        self.nodes += 1
+        return "(BT %s %s [%s])" % ("true" if fn else "false", ib, "; ".join(args))
+
+    def exprs(self):
+        from compiler.util import traverse_ir
+        roots = []
+        traverse_ir.fast_traverse_ir_top_down(
+            self.ir, [ir_data.Expression], _gate_collect,
+            incidental_actions={ir_data.Attribute: _gate_attr_action},
+            skip_descendants_of={ir_data.EnumValue, ir_data.Expression},
+            parameters={"in_attribute": None, "roots": roots})
+        self.nodes = 0
+        out = []
+        seen = set()
+        for e in roots:
+            t = self.btree(e)
+            if t not in seen:       # the verdict is a conjunction: equal trees once
+                seen.add(t)
+                out.append(t)
+        if self.nodes > 6000:
+            raise OutOfModel("too-many-expression-nodes")
+        return "[" + ";\n   ".join(out) + "]", len(roots)
+
+    def imports(self):
+        out = []
+        for k, m in enumerate(self.ir.module):
+            if k == 0 or m.source_file_name == "":
+                continue
+            lt = LayoutTranslator(self.ir, module_index=k)
+            declared, used = lt.back_ends()
+            out.append("(mk_import %s [%s] [%s])" % (lt.attrs(m.attribute), "; ".join(coq_str(x) for x in declared),
+                                                    "; ".join(coq_str(x) for x in used)))
+        return "[" + "; ".join(out) + "]", len(out)
+
+    def param_names(self):
+        names = []
+
+        def walk(td):
+            for p in td.runtime_parameter:
+                names.append(p.name.name.text)
+            for sub in td.subtype:
+                walk(sub)
+        for m in self.ir.module:
+            for td in m.type:
+                walk(td)
+        return names
+
+    def translate(self):
+        cpp, ncpp = self.cpp_nodes()
+        req, nreq = self.req_sites()
+        ex, nex = self.exprs()
+        imp, nimp = self.imports()
+        names = self.param_names()
+        term = "(mk_ext %s\n  %s\n  %s\n  %s [%s])" % (cpp, req, ex, imp, "; ".join(coq_str(n) for n in names))
+        return term, dict(cpp_attrs=ncpp, req_sites=nreq, exprs=nex, imports=nimp, params=len(names))
+
+
 # messages of checks inside normalize_and_verify / check_constraints that the Layout model does not mirror
 UNMODELLED_PREFIXES = (
-    "Static references must", "Integer range of", "Constant value", "Potential range of", "Either all arguments",
-    "Attribute 'requires' is only allowed", "Expected '", "Only values '1'",
-    "Attribute 'expected_back_ends'",
+    "Static references must", "Expected '", "Only values '1'", "Attribute 'expected_back_ends'",
 )
 
 
@@ -1187,15 +1473,49 @@ def analyse_c14(args):
                 "full": ("ok", None), "layout": ("accept", []), "harness_error": True}
 
 
+def _backend_verdict(ir, full_header):
+    """The C++ back end's attribute verification on an IR the front end accepted."""
+    from compiler.back_end.cpp import header_generator as hg
+    try:
+        if full_header:
+            header, errs = hg.generate_header(ir)
+            if not errs and not header:
+                return ("crash", {"exception": "no header and no errors", "function": "generate_header", "file": "header_generator.py"})
+        else:
+            errs = hg._propagate_defaults_and_verify_attributes(ir)
+    except Exception as ex:
+        tb = traceback.extract_tb(ex.__traceback__)
+        return ("crash", {"exception": repr(ex), "function": tb[-1].name, "file": os.path.basename(tb[-1].filename)})
+    if errs:
+        return ("errors", error_lines(errs))
+    return ("ok", None)
+
+
 def _analyse_c14(args):
     text, name, extra, repo = args
-    out = {"oom": None, "coq": None}
+    out = {"oom": None, "coq": None, "backend": None, "ext": None}
     st, r = compile_emb(text, name=name, extra=extra, repo=repo)
     out["full"] = ("ok", None) if st == "ok" else ("errors", error_lines(r)) if st == "errors" else ("crash", _crash_plain(r))
-    st0, ir = compile_emb(text, stop="normalize_and_verify", name=name, extra=extra, repo=repo)
+    if st == "ok":
+        out["backend"] = _backend_verdict(r, "(cpp)" in text or any("(cpp)" in v for v in (extra or {}).values()))
+    # the IR the model is built from: every pass up to compute_constants, whatever check_early_constraints says
+    st0, ir = compile_emb(text, stop="check_early_constraints", name=name, extra=extra, repo=repo)
     if st0 != "ok":
         out["layout"] = ("early", [])
         out["oom"] = "rejected-before-attribute-checks" if st0 == "errors" else "crash-before-attribute-checks"
+        return out
+    from compiler.front_end import constraints, expression_bounds
+    from compiler.util import error as error_mod
+    try:
+        early, _ = error_mod.split_errors(constraints.check_early_constraints(ir))
+        cc, _ = error_mod.split_errors(expression_bounds.compute_constants(ir))
+    except Exception:
+        out["layout"] = ("early", [])
+        out["oom"] = "crash-before-attribute-checks"
+        return out
+    if cc:
+        out["layout"] = ("early", [])
+        out["oom"] = "rejected-before-attribute-checks"
         return out
     if st == "ok":
         st1, r1 = "ok", None                       # accepted by every pass
@@ -1209,8 +1529,11 @@ def _analyse_c14(args):
         out["layout"] = ("reject", modelled) if modelled else ("unmodelled-reject", lines)
     else:
         out["layout"] = ("accept", [])
+    out["early"] = bool(early)
     try:
-        out["coq"] = LayoutTranslator(ir).translate()
+        lt = LayoutTranslator(ir)
+        out["coq"] = lt.translate()
+        out["ext"], out["ext_counts"] = ExtTranslator(ir, lt).translate()
         # the byte orders the front end's own normalisation leaves on the fields (also when it then
         # reports errors): run the pass on a fresh IR and read the attributes back
         out["borders"] = None
